@@ -6,7 +6,7 @@ namespace MythVerif.Barrier
 /-! ### list facts -/
 
 /-- pigeonhole: a duplicate-free list inside a duplicate-free list of at most the same length covers it -/
-theorem pigeon {l m : List Tid} (hl : l.Nodup) (hs : ∀ x, x ∈ l → x ∈ m) (hm : m.Nodup)
+theorem pigeon {l m : List Tid} (hl : l.Nodup) (hs : ∀ x, x ∈ l → x ∈ m)
     (hlen : m.length ≤ l.length) : ∀ x, x ∈ m → x ∈ l := by
   intro x hx
   apply Classical.byContradiction
@@ -77,6 +77,7 @@ structure Inv (P : List Tid) (s : St) : Prop where
   lpuA  : ∀ t rem, s.pc t = .lpush rem → s.wk = rem ∧ rem ≠ [] ∧ s.pushed (s.rnd t) + rem.length + 1 = P.length
   lreA  : ∀ t, s.pc t = .lret → s.wk = [] ∧ s.pushed (s.rnd t) + 1 = P.length
   pshC  : ∀ t, (s.pc t = .lret ∨ ∃ rem, s.pc t = .lpush rem) → ∀ p, p ∈ s.old → p ≠ t → s.pc p = .woken ∨ p ∈ s.wk
+  oldW  : s.ldr = none → ∀ p, p ∈ s.old → s.pc p = .woken
   -- ghost counters
   arrLt : ∀ k, k < s.gen → s.arr k = P.length
   arrEq : s.arr s.gen = s.arrd.length
@@ -88,18 +89,18 @@ structure Inv (P : List Tid) (s : St) : Prop where
 
 theorem inv_init (P : List Tid) (h1 : 1 ≤ P.length) (hn : P.Nodup) : Inv P init := by
   constructor <;> simp [init, prePc, blkPc, ldrPc, popPc, h1, hn]
-  omega
 
 macro "bfin" : tactic => `(tactic| (
-    all_goals (simp only [upd_apply, prePc, blkPc, ldrPc, popPc] at *)
-    all_goals (first | grind [prePc, blkPc, ldrPc, popPc, List.Nodup.mem_erase_iff, List.Nodup.erase,
+    all_goals (try assumption)
+    all_goals (try simp only [upd_apply])
+    all_goals (first | assumption | grind [prePc, blkPc, ldrPc, popPc, List.Nodup.mem_erase_iff, List.Nodup.erase,
                               List.length_erase_of_mem, List.nodup_cons, List.nodup_append] | skip)))
 
 macro "bstep" : tactic => `(tactic| (
   intro h hP hs
   obtain ⟨hnP, hndP, hnp, harrP, harrR, harrB, harrN, holdP, holdR, holdN, holdPc, hpreC, hwokO, hldrI, hldrO,
     hcnt, harrL, hrstL, hrstN, hrdC, hnoEx, hstN, hstA, hstW, hwkA, hwkO, hwkN, hasl, hwkL, hpopA, hpopC,
-    hlrsA, hlpoA, hlpcA, hlpuA, hlreA, hpshC, harrLt, harrEq, harrGt, hretLt, hretEq, hretGe⟩ := h
+    hlrsA, hlpoA, hlpcA, hlpuA, hlreA, hpshC, holdW, harrLt, harrEq, harrGt, hretLt, hretEq, hretGe⟩ := h
   simp only [step] at hs
   (first | (split at hs) | skip)
   all_goals (first | (split at hs) | skip)
@@ -107,9 +108,57 @@ macro "bstep" : tactic => `(tactic| (
   all_goals (first | (split at hs) | skip)
   all_goals (try simp at hs)
   all_goals (try subst hs)
-  all_goals (try (constructor <;> bfin))))
+  skip
+  all_goals (constructor <;> bfin)))
 
 theorem p_blockBegin (P : List Tid) (s s' : St) (t) :
     Inv P s → t ∈ P → step P.length s (.blockBegin t) = some s' → Inv P s' := by bstep
+
+theorem p_pushRead (P : List Tid) (s s' : St) (t x) :
+    Inv P s → t ∈ P → step P.length s (.pushRead t x) = some s' → Inv P s' := by bstep
+
+/-- in the window between the last CAS and the reset every participant is in `old` -/
+theorem all_old_of_len {P : List Tid} {s : St} (holdP : ∀ t, t ∈ s.old → t ∈ P) (holdN : s.old.Nodup)
+    (hlen : s.old.length = P.length) : ∀ p, p ∈ P → p ∈ s.old :=
+  pigeon holdN holdP (by omega)
+
+theorem p_read (P : List Tid) (s s' : St) (t v) :
+    Inv P s → t ∈ P → step P.length s (.read t v) = some s' → Inv P s' := by
+  intro h hP hs
+  obtain ⟨hnP, hndP, hnp, harrP, harrR, harrB, harrN, holdP, holdR, holdN, holdPc, hpreC, hwokO, hldrI, hldrO,
+    hcnt, harrL, hrstL, hrstN, hrdC, hnoEx, hstN, hstA, hstW, hwkA, hwkO, hwkN, hasl, hwkL, hpopA, hpopC,
+    hlrsA, hlpoA, hlpcA, hlpuA, hlreA, hpshC, holdW, harrLt, harrEq, harrGt, hretLt, hretEq, hretGe⟩ := h
+  simp only [step] at hs
+  split at hs
+  · rename_i hc
+    split at hs
+    · simp at hs; subst hs
+      constructor <;> bfin
+    · -- a participant can never read `state ≥ N`
+      exfalso
+      rename_i hv
+      obtain ⟨hv0, hpc⟩ := hc
+      have hr : s.rst = true := by
+        cases hr : s.rst with
+        | true => rfl
+        | false => rw [hr] at hcnt; simp at hcnt; omega
+      cases hl : s.ldr with
+      | none => have := hrstN hl; rw [hr] at this; cases this
+      | some l =>
+        have hlr : s.pc l = .lreset := (hrstL l hl).mp hr
+        have hlen := (hpopA l (by simp [hlr, popPc])).2.1
+        have hto : t ∈ s.old := all_old_of_len holdP holdN hlen t hP
+        rcases holdPc t hto with hb | hb | hb
+        · rcases hpc with e | e <;> simp [e, blkPc] at hb
+        · rcases hpc with e | e <;> simp [e] at hb
+        · have := (hldrI t).mpr hb
+          rcases hpc with e | e <;> simp [e, ldrPc] at this
+  · simp at hs
+
+theorem p_pushCas (P : List Tid) (s s' : St) (t ok) :
+    Inv P s → t ∈ P → step P.length s (.pushCas t ok) = some s' → Inv P s' := by bstep
+
+theorem p_popRead (P : List Tid) (s s' : St) (t x) :
+    Inv P s → t ∈ P → step P.length s (.popRead t x) = some s' → Inv P s' := by bstep
 
 end MythVerif.Barrier
